@@ -1305,6 +1305,29 @@ def _rc_multiset(F, b, tm, h, blocks):
     return ok, "the `finished` flag must be initialised with sets.is_empty(): with zero sets the for loop does not run and the iterator has to end after the single empty combination"
 
 
+def _rc_tree_worklist(F, b, tm, h, blocks):
+    """a work list over a finite tree: every turn pops one node, and whatever is put on the list during the turn is made of the
+    popped node's own children (`map.values()`, `array.iter()`): the list shrinks by one node of a finite JSON value per turn"""
+    rows = iteration_table(b, h, max_paths=200000, stop_at_exit=True)
+    backs = [r for r in rows if r.kind in ("back", "cycle")]
+    ok = bool(backs)
+    why = "every turn must pop one node and push only children of the popped node"
+    for r in backs:
+        pops = [v for _, v in r.calls if v[0] == "call" and re.search(r"Vec::<T, A>::pop$", v[1])]
+        if len(pops) != 1:
+            return False, why + " (found %d pops on a turn)" % len(pops)
+        popped = nosite(deep_strip(pops[0]))
+        wl = unmut_all(nosite(deep_strip(pops[0][2][0])))
+        for _, v in r.calls:
+            if v[0] == "call" and re.search(r"Vec::<T, A>::(push|insert|append)$|Extend<.*>>::extend(\{.*\})?$|::extend_from_slice$", v[1]) and unmut_all(nosite(deep_strip(v[2][0]))) == wl:
+                src = [nosite(deep_strip(x)) for x in v[2][1:]]
+                good = all(contains(x, lambda q: q == popped) and any(re.search(r"::values$|::iter$", c_[1].split("{")[0]) for c_ in calls_in(x)) for x in src)
+                if not good:
+                    return False, why + " (pushed: %s)" % "; ".join(short(x)[:80] for x in src)
+    return ok, why
+
+
+loop_audit("GridSearchPlugin@InputPlugin::process:other", "work list over the finite tree of one JSON value (the recursion guard looks for a nested grid_search key): one pop per turn, only the children of the popped node are pushed", _rc_tree_worklist)
 loop_audit("csv_mapping::traverse", "cursor slice shrinks by one element per turn (remaining = &remaining[1..]); ends when it is empty or a key is missing", _rc_csv_traverse)
 loop_audit("a_star_algorithm::run_a_star", "work list: one frontier pop per turn; a vertex is re-queued only for a strictly smaller label (C02.R1/C07), finite graph, and the termination model (C10) bounds the turns", _rc_pop_each_turn(r"a_star_algorithm::advance_search$"))
 loop_audit("backtrack::vertex_oriented_route", "walks the tree towards the root; an edge seen twice is an Err, so at most |E| turns", _rc_backtrack)
